@@ -35,7 +35,7 @@ INV = ['CallbacksOnce', 'ResolvedHasCallback', 'CacheExact', 'LostOnlyIfReal',
 PROPS = ['OutcomeStable', 'OwnOutcome', 'LateIgnored', 'RevokedIsTerminated', 'LostNotEarly', 'LostMarkRight',
          'VictimGone', 'SoftOnlyIfDue', 'SoftSignalMatchesCallback', 'SoftToRunner', 'HardDelivered',
          'SoftDelivered', 'SnapFresh',
-         'SizeAfterMaintain', 'CleanExitsFree', 'NoForkOnRaise', 'AckResetsBudget']
+         'SizeAfterMaintain', 'CleanExitsFree', 'NoForkOnRaise', 'AckResetsBudget', 'CreditOnReady']
 
 
 # open known findings: (tolerance constant, formulas that fail without it)
@@ -69,7 +69,9 @@ FORMULAS = {
     'C06': (['SoftOnce', 'TimeoutCallbackArgs'],
             ['SoftOnlyIfDue', 'SoftSignalMatchesCallback', 'SoftToRunner', 'SoftDelivered', 'SnapFresh']),
     'C09': (['NeverAbove', 'DistinctIdx', 'QuotaRespected', 'LostOutcomeReal'],
-            ['SizeAfterMaintain', 'CleanExitsFree', 'NoForkOnRaise']),
+            ['SizeAfterMaintain', 'CleanExitsFree', 'NoForkOnRaise', 'CreditOnReady']),
+    # the part of close()/join() that Pool.tla speaks about: nobody has to wait out the guard
+    'C07': (['QuietResolved', 'QuotaRespected'], ['CreditOnReady', 'OwnOutcome']),
     'C10': (['SemBounded', 'SlotsConserved', 'InFlightBound'],
             ['VictimGone']),     # the slot of a job that hit its hard limit comes back with its worker's replacement
     'C11': (['RestartBudget'], ['CleanExitsFree', 'NoForkOnRaise', 'AckResetsBudget']),
@@ -203,6 +205,22 @@ SCEN = {
                    cfg(NJobs=3, Procs=1, MaxPid=3, MaxTime=1, Quota=2, Statuses=[1],
                        Results=['ok'])],
             walks=cfg(NJobs=5, Procs=2, MaxPid=8, MaxTime=4, Quota=2, Statuses=[-9, 1, 0]))),
+    # workers of several generations (quota exits, deaths) whose results must all be credited
+    'credits': dict(
+        serves=['C07'],
+        quick=dict(
+            wide=cfg(NJobs=3, Procs=1, MaxPid=3, MaxTime=1, Quota=2, Statuses=[-9], Results=['ok'],
+                     UserCalls=['Close']),
+            small=[cfg(NJobs=2, Procs=1, MaxPid=3, MaxTime=0, Quota=1, Statuses=[-9], Results=['ok'],
+                       UserCalls=['Close'])],
+            walks=cfg(NJobs=4, Procs=2, MaxPid=6, MaxTime=3, Quota=2, Statuses=[-9, 1], UserCalls=['Close'])),
+        thorough=dict(
+            wide=cfg(NJobs=3, Procs=2, MaxPid=4, MaxTime=1, Quota=1, Statuses=[-9], Results=['ok'],
+                     UserCalls=['Close']),
+            small=[cfg(NJobs=3, Procs=1, MaxPid=3, MaxTime=1, Quota=2, Statuses=[-9], Results=['ok'],
+                       UserCalls=['Close'])],
+            walks=cfg(NJobs=5, Procs=2, MaxPid=8, MaxTime=4, Quota=2, Statuses=[-9, 1, 0],
+                      UserCalls=['Close']))),
     'restarts': dict(
         serves=['C11', 'C09'],
         quick=dict(
